@@ -166,6 +166,26 @@ pub fn render_wide(_args: &[String]) -> String {
                 }
             }
         }
+        // {bar:N} with two-column progress characters: whole cells, padded to exactly N columns like every other field
+        if width == 80 {
+            for n in [1usize, 2, 3, 4, 5, 7, 10, 11] {
+                for al in ["", "<", ">", "^"] {
+                    let t = format!("[{{bar:{}{}}}]|{{pos}}", al, n);
+                    let style = ProgressStyle::with_template(&t).unwrap().progress_chars("\u{ff03}\u{ff1e}\u{ff0d}");
+                    for (pos, len) in [(0u64, 10u64), (5, 10), (10, 10)] {
+                        let f = frame(&style, Some(len), pos, "", "", 0, 0, width);
+                        tried += 1;
+                        let line = f.lines.get(0).map(|l| l.1.clone()).unwrap_or_default();
+                        let tail = format!("]|{}", pos);
+                        let ok = f.lines.len() == 1 && line.starts_with('[') && line.ends_with(&tail) && text_cols(&line) == n + 1 + tail.len();
+                        if !ok {
+                            return format!("{{\"found\": true, \"clause\": \"C12 a {{bar:N}} field of two-column characters occupies exactly N columns (whole cells plus padding)\", \"tried\": {}, \"input\": {{\"template\": {}, \"pos\": {}, \"len\": {}, \"expected_columns\": {}, \"rendered\": {}}}, \"rerun\": \"replay render_wide\"}}",
+                                tried, crate::js(&t), pos, len, n + 1 + tail.len(), crate::js(&line));
+                        }
+                    }
+                }
+            }
+        }
         // a width field whose content is wider than the field, next to a wide element: the line is still exactly as wide as the terminal
         if width >= 40 {
             for (t, m) in [("{msg:8} [{wide_bar}] {pos}/{len}", "downloading"), ("{pos:>1}/{len:1} {wide_bar}|", ""), ("{msg:3}{wide_bar}", "abcdefghij")] {
